@@ -204,6 +204,15 @@ impl RcvEnd {
     }
 }
 
+/// A bus listener together with what the harness knows about it (travels with the value when
+/// operations of several tasks take it out of and put it back into the slot).
+pub struct LisBox {
+    pub bl: BusListener,
+    pub started: bool,
+    /// `destroy()` has succeeded on this listener
+    pub destroyed: bool,
+}
+
 /// Harness-side cancellation of a stream-class wait that owns a handle (wait_for_object).
 #[derive(Default)]
 pub struct Cancel {
@@ -252,11 +261,7 @@ pub struct ClientCtx {
     pub held: RefCell<VecDeque<(Promise, u64)>>,
     pub snd: Vec<Slot<SndEnd>>,
     pub rcv: Vec<Slot<RcvEnd>>,
-    pub lis: Vec<Slot<BusListener>>,
-    /// listeners currently started (harness view, for the non-triviality accounting)
-    pub lis_started: RefCell<Vec<bool>>,
-    /// listeners on which `destroy()` has succeeded
-    pub lis_destroyed: RefCell<Vec<bool>>,
+    pub lis: Vec<Slot<LisBox>>,
     pub disc: Vec<Slot<Discoverer<u8>>>,
     pub scopes: Vec<Slot<Rc<Tracked<LifetimeScope>>>>,
     pub lts: Vec<Slot<Lifetime>>,
@@ -284,8 +289,6 @@ impl ClientCtx {
             snd: slots(NCH),
             rcv: slots(NCH),
             lis: slots(NLIS),
-            lis_started: RefCell::new(vec![false; NLIS]),
-            lis_destroyed: RefCell::new(vec![false; NLIS]),
             disc: slots(NDISC),
             scopes: slots(NSCOPE),
             lts: slots(NLT),
@@ -1574,61 +1577,71 @@ async fn exec(w: &Rc<World>, t: &Rc<TaskCtx>, cc: &Rc<ClientCtx>, op: &Op) -> St
             let r = t.req("create_bus_listener", h.create_bus_listener()).await;
             let txt = res_name(&r);
             if let Ok(bl) = r {
-                drop_listener_accounting(w, cc, *l);
-                cc.lis_destroyed.borrow_mut()[*l as usize] = false;
-                drop(cc.lis[*l as usize].put(bl));
+                if let Some(old) = cc.lis[*l as usize].put(LisBox { bl, started: false, destroyed: false }) {
+                    drop_listener_accounting(w, cc, &old);
+                    drop(old);
+                }
             }
             txt
         }
-        Op::AddFilter { l, f } => match cc.lis[*l as usize].with(|bl| bl.add_filter(make_filter(f))) {
+        Op::AddFilter { l, f } => match cc.lis[*l as usize].with(|b| b.bl.add_filter(make_filter(f))) {
             Some(r) => res_name(&r),
             None => skip(w),
         },
-        Op::RemoveFilter { l, f } => match cc.lis[*l as usize].with(|bl| bl.remove_filter(make_filter(f))) {
+        Op::RemoveFilter { l, f } => match cc.lis[*l as usize].with(|b| b.bl.remove_filter(make_filter(f))) {
             Some(r) => res_name(&r),
             None => skip(w),
         },
-        Op::ClearFilters { l } => match cc.lis[*l as usize].with(|bl| bl.clear_filters()) {
+        Op::ClearFilters { l } => match cc.lis[*l as usize].with(|b| b.bl.clear_filters()) {
             Some(r) => res_name(&r),
             None => skip(w),
         },
         Op::StartListener { l, scope } => {
-            let Some(mut bl) = cc.lis[*l as usize].take() else { return skip(w) };
-            let r = t.req("start_bus_listener", bl.start(make_scope(*scope))).await;
+            let Some(mut b) = cc.lis[*l as usize].take() else { return skip(w) };
+            let r = t.req("start_bus_listener", b.bl.start(make_scope(*scope))).await;
             if r.is_ok() {
-                cc.lis_started.borrow_mut()[*l as usize] = true;
+                b.started = true;
             }
-            drop(cc.lis[*l as usize].put_back(bl));
+            drop(cc.lis[*l as usize].put_back(b));
             res_name(&r)
         }
         Op::StopListener { l } => {
-            let Some(mut bl) = cc.lis[*l as usize].take() else { return skip(w) };
-            let r = t.req("stop_bus_listener", bl.stop()).await;
+            let Some(mut b) = cc.lis[*l as usize].take() else { return skip(w) };
+            let r = t.req("stop_bus_listener", b.bl.stop()).await;
             if r.is_ok() {
-                cc.lis_started.borrow_mut()[*l as usize] = false;
+                b.started = false;
             }
-            drop(cc.lis[*l as usize].put_back(bl));
+            drop(cc.lis[*l as usize].put_back(b));
             res_name(&r)
         }
         Op::ListenerNext { l, n, wait } => {
             let slot = &cc.lis[*l as usize];
-            if !slot.is_some() {
-                return skip(w);
-            }
-            if cc.lis_destroyed.borrow()[*l as usize] {
-                if !w.allow_listener_after_destroy {
-                    w.count("excluded:f6");
-                    return "excluded:f6".into();
-                }
-                w.count("listener-polled-after-destroy");
-            }
             let mut got = 0;
             for _ in 0..*n {
+                // a listener that has been destroyed is not polled again unless the class allows
+                // the trigger of known finding F6
+                match slot.with(|b| b.destroyed) {
+                    None => return if got == 0 { skip(w) } else { format!("{} bus events", got) },
+                    Some(true) => {
+                        if !w.allow_listener_after_destroy {
+                            w.count("excluded:f6");
+                            return "excluded:f6".into();
+                        }
+                        w.count("listener-polled-after-destroy");
+                    }
+                    Some(false) => {}
+                }
+                let allow = w.allow_listener_after_destroy;
                 let r = t
-                    .stream("bus_listener_next", slot_op(slot, |bl, cx| match bl.poll_next_event(cx) {
-                        Poll::Pending if !*wait => Poll::Ready(None),
-                        Poll::Pending => Poll::Pending,
-                        Poll::Ready(x) => Poll::Ready(x),
+                    .stream("bus_listener_next", slot_op(slot, |b, cx| {
+                        if b.destroyed && !allow {
+                            return Poll::Ready(None);
+                        }
+                        match b.bl.poll_next_event(cx) {
+                            Poll::Pending if !*wait => Poll::Ready(None),
+                            Poll::Pending => Poll::Pending,
+                            Poll::Ready(x) => Poll::Ready(x),
+                        }
                     }))
                     .await;
                 match r {
@@ -1642,19 +1655,20 @@ async fn exec(w: &Rc<World>, t: &Rc<TaskCtx>, cc: &Rc<ClientCtx>, op: &Op) -> St
             format!("{} bus events", got)
         }
         Op::DestroyListener { l } => {
-            let Some(mut bl) = cc.lis[*l as usize].take() else { return skip(w) };
-            drop_listener_accounting(w, cc, *l);
-            let r = t.req("destroy_bus_listener", bl.destroy()).await;
-            let back = cc.lis[*l as usize].put_back(bl).is_none();
-            if back && r.is_ok() {
-                cc.lis_destroyed.borrow_mut()[*l as usize] = true;
+            let Some(mut b) = cc.lis[*l as usize].take() else { return skip(w) };
+            drop_listener_accounting(w, cc, &b);
+            let r = t.req("destroy_bus_listener", b.bl.destroy()).await;
+            if r.is_ok() {
+                b.destroyed = true;
+                b.started = false;
             }
+            drop(cc.lis[*l as usize].put_back(b));
             res_name(&r)
         }
         Op::DropListener { l } => match cc.lis[*l as usize].take() {
-            Some(bl) => {
-                drop_listener_accounting(w, cc, *l);
-                drop(bl);
+            Some(b) => {
+                drop_listener_accounting(w, cc, &b);
+                drop(b);
                 "dropped".into()
             }
             None => skip(w),
@@ -1820,9 +1834,8 @@ async fn exec(w: &Rc<World>, t: &Rc<TaskCtx>, cc: &Rc<ClientCtx>, op: &Op) -> St
     }
 }
 
-fn drop_listener_accounting(w: &World, cc: &ClientCtx, l: u8) {
-    let started = std::mem::replace(&mut cc.lis_started.borrow_mut()[l as usize], false);
-    if started {
+fn drop_listener_accounting(w: &World, cc: &ClientCtx, b: &LisBox) {
+    if b.started {
         w.count("drop-with-inflight");
         if !w.board.borrow().bus_mutators.iter().all(|c| *c == cc.idx) {
             w.count("cross-client-race");
